@@ -359,7 +359,9 @@ func oracleC11(f *sessionFam, w *World, res *Result) []Violation {
 					}
 					if ce == nil && f.drained {
 						l.add("overlap-closes-session", x.Method, fmt.Sprintf("%s: overlapping %s requests but the session was not closed", a, x.Method))
-					} else if ce != nil && ce.S != "transport error" && ce.Seq > yStart && ce.Seq < yStart+12 {
+					} else if ce != nil && ce.S != "transport error" && ce.Seq > yStart && ce.Seq < yStart+12 && !f.armedCauses(w, a, ce.Seq)[ce.S] {
+						// (a close for another cause that was around in the same instant - an application close, a
+						// shutdown - may win the race against the overlap's transport error)
 						l.add("overlap-closes-session", ce.S, fmt.Sprintf("%s: overlapping %s requests closed the session with %q", a, x.Method, ce.S))
 					}
 				}
@@ -468,11 +470,24 @@ func oracleC12(f *sessionFam, w *World, res *Result) []Violation {
 			for _, e := range w.evs(a, "c-recv") {
 				recv[e.S] = true
 			}
+			// "accepted before the close": the Send had returned when Close was called.  A Send still in progress in
+			// another goroutine when Close is called may as well count as coming after it (and is then discarded)
+			returned := map[string]bool{}
+			w.mu.Lock()
+			for _, m := range w.sent[a] {
+				if m.SeqRet != 0 && m.SeqRet < ac.Seq {
+					returned[kindPrefix(m.Binary)+string(m.Data)] = true
+				}
+			}
+			w.mu.Unlock()
 			for _, e := range w.evs(a, "packetCreate") {
 				if e.Seq > ac.Seq || !strings.HasPrefix(e.S, "message|") {
 					continue
 				}
 				p := strings.TrimPrefix(e.S, "message|")
+				if !returned[p] {
+					continue
+				}
 				if strings.HasPrefix(p, "t-reader") {
 					continue
 				}
